@@ -100,7 +100,7 @@ M = [
      "    return (v >> C) | (v << (64 - C));", "    return (v >> (C + 1)) | (v << (64 - C - 1));"),
     ("ebr_move_ctor_keeps_source", "C15", "xenium/reclamation/impl/generic_epoch_based.hpp",
      "generic_epoch_based<Traits>::guard_ptr<T, MarkedPtr>::guard_ptr(guard_ptr&& p) noexcept : base(p.ptr) {\n  p.ptr.reset();\n}",
-     "generic_epoch_based<Traits>::guard_ptr<T, MarkedPtr>::guard_ptr(guard_ptr&& p) noexcept : base(p.ptr) {\n  if (this->ptr) local_thread_data.enter_critical();\n}"),
+     "generic_epoch_based<Traits>::guard_ptr<T, MarkedPtr>::guard_ptr(guard_ptr&& p) noexcept : base(p.ptr) {\n}"),
     # ---- weak memory (C03)
     ("ms_link_cas_relaxed", "C03", "xenium/michael_scott_queue.hpp",
      "REPLACE_WITH_SCRIPT", ""),
@@ -142,7 +142,7 @@ def scripted(name, text):
     if name == "ms_link_cas_relaxed":
         i = text.index("void michael_scott_queue<T, Policies...>::push(T value)")
         body = text[i:]
-        j = body.index("compare_exchange_weak(")
+        j = body.index("compare_exchange_weak(", body.index("Attempt to link in the new element"))
         k = body.index(")", body.index("std::memory_order_release", j))
         seg = body[j:k].replace("std::memory_order_release", "std::memory_order_relaxed", 1)
         return text[:i] + body[:j] + seg + body[k:]
